@@ -20,6 +20,7 @@ PRELUDE = r'''
 unsigned nondet_uint(void); _Bool nondet_bool(void); unsigned long nondet_ulong(void);
 _Bool g_lock_held; const void *g_lock_obj; int g_send_calls, g_push_calls; _Bool g_all_sends_locked; struct msg_m *g_sent[3]; _Bool g_sent_eob[3];
 void guard_acquired(const void *lock) { g_lock_held = 1; g_lock_obj = lock; }
+void guard_released(const void *lock) { g_lock_held = 0; }
 _Bool ses_send_process(struct ses_m *s, struct msg_m *m)
 {
   if (!g_lock_held) g_all_sends_locked = 0;
@@ -75,7 +76,7 @@ UNIT = dict(
     pre_structs=PRE_STRUCTS,
     probe={'K_pm_pipeline': 'FIX8::pm_pipeline'},
     emit=dict(
-        exceptions=True, guard_ghost='guard_acquired',
+        exceptions=True, guard_ghost='guard_acquired', guard_ghost_release='guard_released',
         bases={'FIX8::FIXWriter': 'FIX8::AsyncSocket<FIX8::Message *>'},
         pod=[r'std::basic_string<char>'],
         type_map=[(r'FIX8::Session', 'struct ses_m'), (r'FIX8::Message', 'struct msg_m'), (r'FIX8::ProcessModel', 'unsigned int'), (r'FIX8::f8_spin_lock', 'struct lock_m'),
